@@ -83,6 +83,14 @@ class FakeClient(object):
         # rid -> outcome, consulted by the cancellers: ("pending",) | ("fire", value) | ("fail", exc)
         self.cancel_outcomes = {}
         self.wipe_on_cancel = False
+        # SYNCHRONOUS answers: modes for the next produce requests, each answered BEFORE send_produce_request returns
+        # (the real client does that with acks=0 on a connected leader, after close(), and whenever it can tell
+        # the outcome from what it has cached).  `sync_answer(p, mode) -> ("fire", value) | ("fail", exc)` and
+        # `on_sync_attach(rid)` are set by the driver: the latter runs when the Producer attaches its handlers to
+        # the already fired Deferred - the moment it starts to handle the answer.
+        self.sync_queue = []
+        self.sync_answer = None
+        self.on_sync_attach = None
 
     # ---- the metadata cache, as the real client keeps it
     def metadata_error_for_topic(self, topic):
@@ -147,7 +155,31 @@ class FakeClient(object):
     def send_produce_request(self, payloads=None, acks=1, timeout=1000, fail_on_error=True, callback=None):
         p = self._new("produce", list(payloads))
         self.log.append(("produce", p.rid, list(payloads), acks, timeout, fail_on_error))
+        if self.sync_queue and self.sync_answer is not None:
+            return self._answered(p, self.sync_queue.pop(0))
         return self._wait(p).addErrback(self._done_eb, p)
+
+    def _answered(self, p, mode):
+        """a Deferred that has fired already; the driver is told when the Producer starts handling it"""
+        how, value = self.sync_answer(p, mode)
+        p.done = True
+        d = defer.succeed(value) if how == "fire" else defer.fail(Failure(value))
+        names = ("addCallbacks", "addCallback", "addErrback", "addBoth")
+        origs = {n: getattr(d, n) for n in names}
+
+        def hook(name):
+            def add(*a, **k):
+                if "addBoth" in d.__dict__:
+                    for n in names:
+                        del d.__dict__[n]
+                    if self.on_sync_attach is not None:
+                        self.on_sync_attach(p.rid)
+                return origs[name](*a, **k)
+            return add
+
+        for n in names:
+            setattr(d, n, hook(n))
+        return d
 
     @staticmethod
     def _done_eb(f, p):
